@@ -424,6 +424,7 @@ func run(c *core.Ctx) {
 	splitStrings := []string{"javascript", "javascrip", "javascript:alert(1)", "JaVaScRiPt:alert(1)", "java\tscript:x", " javascript:x", "//evil.example/x.js", "https://evil.example/x.js", "..", "../x", "x.css", "/ok.js"}
 	idx := 0
 	r1 := c.Rng("w1")
+	rt := c.Rng("torn-text")
 	for _, t := range targets {
 		for _, q := range []string{`"`, `'`} {
 			for _, pre := range prefixesW1 {
@@ -461,6 +462,21 @@ func run(c *core.Ctx) {
 							is.S[0] = util.Q("w1")
 						}
 						checkOne(c, text, hs, is, false)
+					}
+					if idx%2 == 0 {
+						// the same cell with its static text torn by template comments
+						torn := gen.SplitText(rt, text, 1+rt.Intn(2))
+						c.Journal(util.JSON(map[string]string{"template": torn}))
+						c.Count("cells_with_torn_text", 1)
+						for n := 0; n < 3; n++ {
+							d := splitStrings[(idx*3+n)%len(splitStrings)]
+							c1 := rt.Intn(len(d) + 1)
+							hs, is := w1Data(d, c1, len(d), true)
+							if n == 0 {
+								hs, is = w1Data(d, len(d), len(d), true)
+							}
+							checkOne(c, torn, hs, is, false)
+						}
 					}
 					if c.Thorough() && pre == "" && sh.parts >= 2 {
 						d := "javascript:x"
